@@ -77,11 +77,13 @@ static int expectation(const std::string& path, const std::string& root) {
 static unsigned long nViol = 0;
 static std::map<std::string, unsigned long> violCount;
 static std::map<std::string, std::pair<std::string, std::string>> smallest;  // key -> smallest witness
+static std::set<uint64_t> distinctPairs;  // judged pairs, by hash
 static void judge(const std::string& path, const std::string& root, unsigned long& must, unsigned long& mustNot, unsigned long& dontCare,
                   std::set<uint64_t>& classes) {
   int e = expectation(path, root);
   bool got = pathIsPrefixedByPath(path, root);
   if (e < 0) { ++dontCare; return; }
+  distinctPairs.insert(vf::fnv(root, vf::fnv(path) * 31 + 7));
   bool rootSep = root.back() == '/', pathSep = path.back() == '/';
   const char* rel = path.size() > root.size() ? "path longer than root" : path.size() == root.size() ? "same length" : "path shorter than root";
   bool rootAbs = root[0] == '/';
@@ -193,8 +195,8 @@ int main(int argc, char** argv) {
   for (auto& kv : violCount) vc += jstr(kv.first) + ":" + std::to_string(kv.second) + ",";
   if (vc.size() > 1) vc.pop_back();
   vc += "}";
-  printf("{\"summary\":{\"pairs\":%lu,\"exhaustive_pairs\":%lu,\"random_pairs\":%lu,\"must\":%lu,\"must_not\":%lu,\"dont_care\":%lu,\"judged\":%lu,\"classes\":%zu,"
+  printf("{\"summary\":{\"pairs\":%lu,\"exhaustive_pairs\":%lu,\"random_pairs\":%lu,\"must\":%lu,\"must_not\":%lu,\"dont_care\":%lu,\"judged\":%lu,\"distinct_pairs\":%zu,\"classes\":%zu,"
          "\"violations\":%lu,\"viol_counts\":%s}}\n",
-         exPairs + rndPairs, exPairs, rndPairs, must, mustNot, dontCare, must + mustNot, classes.size(), nViol, vc.c_str());
+         exPairs + rndPairs, exPairs, rndPairs, must, mustNot, dontCare, must + mustNot, distinctPairs.size(), classes.size(), nViol, vc.c_str());
   return 0;
 }
